@@ -298,11 +298,21 @@ def clause_c(z, tier, res):
         set_tz("UTC")
 
 
+class _DateSub(datetime.date):
+    pass
+
+
+class _DTSub(datetime.datetime):
+    pass
+
+
 def clause_d(z, tier, res):
     set_tz(z)
     try:
         cold.clear_all()
         srcs = [("datetime", v) for v in datetimes(tier)[:: (1 if tier == "thorough" else 3)]] + [("date", v) for v in dates(tier)] + [("timedelta", v) for v in timedeltas(tier)[:60]] + [("time", v) for v in times(tier)[::5]]
+        # instances of user subclasses of date / datetime are dates / datetimes like any other
+        srcs += [("date", _DateSub(2020, 1, 2)), ("date", _DateSub(1969, 12, 31)), ("datetime", _DTSub(2020, 1, 2, 3, 4, 5, 6, tzinfo=UTC)), ("datetime", _DTSub(1969, 12, 31, 23, 59, 59, tzinfo=tz(330)))]
         for kind, v in srcs:
             if kind == "datetime":
                 q = F((v - EPOCH) // datetime.timedelta(microseconds=1), 1_000_000)
